@@ -5,7 +5,9 @@
 //! One case per line:
 //!   hist <c0> <now0> <driver_timeout_ms> <inter_service_timeout_ms> | <op> ; <op> ; ...
 //! ops:
-//!   ap|ax|as <chan> <stream>        add_publication / add_exclusive_publication / add_subscription
+//!   ap|ax|as <chan> <stream> [len]  add_publication / add_exclusive_publication / add_subscription; len (optional, >= 41): the channel
+//!                                   string is padded to exactly len bytes ("aeron:udp?alias=aaa..|endpoint=localhost:<port>"), default 34 bytes
+//!   cp|cx <id>                      the user calls the public close() of the Publication / ExclusivePublication it holds
 //!   ac <type> <keylen> <lablen>     add_counter
 //!   ad <variant> <reg> <chan>       0 add_destination 1 remove_destination 2 add_rcv_destination 3 remove_rcv_destination
 //!   fp|fs|fc|fd <id>                find_publication / find_subscription / find_counter / find_destination_response
@@ -83,10 +85,24 @@ fn channel(chan: i64) -> CString {
     CString::new(format!("aeron:udp?endpoint=localhost:{}", PORT_BASE + chan)).unwrap()
 }
 
+/// the channel for number `chan` as a string of exactly `len` bytes (len = 0: the short default form, 34 bytes)
+fn channel_len(chan: i64, len: i64) -> CString {
+    let short = format!("aeron:udp?endpoint=localhost:{}", PORT_BASE + chan);
+    if len == 0 {
+        return CString::new(short).unwrap();
+    }
+    let fixed = "aeron:udp?alias=|".len() as i64 + "endpoint=localhost:".len() as i64 + 5;
+    assert!(len >= fixed, "channel length {} too small", len);
+    let s = format!("aeron:udp?alias={}|endpoint=localhost:{}", "a".repeat((len - fixed) as usize), PORT_BASE + chan);
+    assert_eq!(s.len() as i64, len);
+    CString::new(s).unwrap()
+}
+
 fn chan_of(bytes: &[u8]) -> i64 {
     let s = String::from_utf8_lossy(bytes);
+    let long = s.starts_with("aeron:udp?alias=") && s.contains("|endpoint=localhost:") && s["aeron:udp?alias=".len()..].split('|').next().map_or(false, |a| a.bytes().all(|c| c == b'a'));
     match s.rsplit(':').next().and_then(|p| p.parse::<i64>().ok()) {
-        Some(p) if s.starts_with("aeron:udp?endpoint=localhost:") => p - PORT_BASE,
+        Some(p) if s.starts_with("aeron:udp?endpoint=localhost:") || long => p - PORT_BASE,
         _ => -1,
     }
 }
@@ -368,10 +384,10 @@ impl Client {
             Err(e) => format!("Err {}", err_name(&e)),
         };
         match w[0] {
-            "ap" => res_id(self.conductor.lock().unwrap().add_publication(channel(a[0]), a[1] as i32)),
-            "ax" => res_id(self.conductor.lock().unwrap().add_exclusive_publication(channel(a[0]), a[1] as i32)),
+            "ap" => res_id(self.conductor.lock().unwrap().add_publication(channel_len(a[0], *a.get(2).unwrap_or(&0)), a[1] as i32)),
+            "ax" => res_id(self.conductor.lock().unwrap().add_exclusive_publication(channel_len(a[0], *a.get(2).unwrap_or(&0)), a[1] as i32)),
             "as" => res_id(self.conductor.lock().unwrap().add_subscription(
-                channel(a[0]),
+                channel_len(a[0], *a.get(2).unwrap_or(&0)),
                 a[1] as i32,
                 Box::new(on_avail_img),
                 Box::new(on_unavail_img),
@@ -474,6 +490,20 @@ impl Client {
                         ok_list(&[1])
                     },
                     None => ok_list(&[0]),
+                }
+            },
+            "cp" | "cx" => {
+                let k = if w[0] == "cp" { 0 } else { 1 };
+                match self.held.get(&(k, a[0])).and_then(|l| l.last()) {
+                    Some((_h, Handle::Pub(p))) => {
+                        p.lock().unwrap().close();
+                        ok_list(&[1])
+                    },
+                    Some((_h, Handle::XPub(p))) => {
+                        p.lock().unwrap().close();
+                        ok_list(&[1])
+                    },
+                    _ => ok_list(&[0]),
                 }
             },
             "pp" | "px" | "ps" | "pc" => {
